@@ -22,7 +22,8 @@ fn view_of<S: ShortGroupSignatureScheme>(p: &Presentation<S>) -> View {
     leaves(&v, &mut vec![], &mut ls);
     let mut out = View { scalars: vec![], g1: vec![], g2: vec![], challenge: p.challenge };
     for (path, leaf) in ls {
-        if path.first().map(|s| s.as_str()) == Some("disclosed_messages") {
+        // disclosed claims (also the proof's own copy of their scalars) are not hidden material
+        if path.iter().any(|s| s == "disclosed_messages") {
             continue;
         }
         let name = path.join("/");
@@ -86,20 +87,24 @@ fn distinguishers(view: &View, gens: &[(String, G1Projective)], m0: &Scalar, m1:
     }
     // T2: nonce reuse — a published response p = n + c·m whose nonce n also blinds a transmitted point:
     //     P - (p - c·m)·Q ∈ {0, m·Q'} for public generators Q, Q'
-    for (pn, p) in &view.scalars {
+    let mq0: Vec<G1Projective> = gens.iter().map(|(_, q)| *q * *m0).collect();
+    let mq1: Vec<G1Projective> = gens.iter().map(|(_, q)| *q * *m1).collect();
+    // the 64 byte ciphertext points of a decryptable encryption have their own test below
+    let targets: Vec<&(String, G1Projective)> = view.g1.iter().filter(|(n, _)| !n.contains("byte_ciphertext")).collect();
+    for (pn, p) in view.scalars.iter().filter(|(n, _)| !n.contains("byte_proofs")) {
         let n0 = *p - c * *m0;
         let n1 = *p - c * *m1;
         for (qn, q) in gens {
             let (a0, a1) = (*q * n0, *q * n1);
-            for (tn, t) in &view.g1 {
+            for (tn, t) in &targets {
                 let (d0, d1) = (*t - a0, *t - a1);
                 let z = (bool::from(d0.is_identity()), bool::from(d1.is_identity()));
                 if z.0 != z.1 {
                     found.push(format!("nonce-reuse:{}:{}:{}", tn, pn, qn));
                     continue;
                 }
-                for (q2n, q2) in gens {
-                    if (d0 == *q2 * *m0) != (d1 == *q2 * *m1) {
+                for (j, (q2n, _)) in gens.iter().enumerate() {
+                    if (d0 == mq0[j]) != (d1 == mq1[j]) {
                         found.push(format!("nonce-reuse-with-message-term:{}:{}:{}:{}", tn, pn, qn, q2n));
                     }
                 }
@@ -313,6 +318,10 @@ fn c12_suite<S: ShortGroupSignatureScheme>(em: &mut Emitter, base: &mut Rng, sui
         // deliberately derived pseudonyms are outside the property: no encryption statements
         mix.verenc = None;
         mix.ved = None;
+        // the holders differ in their (hidden) identifier
+        for d in mix.disclosed.iter_mut() {
+            d.retain(|l| l != "id");
+        }
         // the disclosed claims are equal for both holders by construction below
         let scn_a = Scn::<S>::build(rng, &mix);
         // a second credential of the same issuer with the same claims except the hidden identifier
